@@ -105,6 +105,9 @@ func ListOf(vs ...val.Value) val.Value {
 		}
 		return val.Int32List(l)
 	}
+	if l := ListOfAny(vs); l != nil {
+		return l
+	}
 	panic(fmt.Sprintf("ListOf: unsupported %T", vs[0]))
 }
 
